@@ -95,6 +95,20 @@ def write_evidence(pid, tier, seed, coverage, assumptions, wall, violations):
 
 
 def main_check(pid, tier, seed):
+    lines = []
+    rc = _main_check(pid, tier, seed, lambda *a: lines.append(" ".join(str(x) for x in a)))
+    try:
+        sys.stdout.write("\n".join(lines) + "\n")
+        sys.stdout.flush()
+    except BrokenPipeError:
+        try:
+            sys.stdout = open(os.devnull, "w")
+        except Exception:
+            pass
+    return rc
+
+
+def _main_check(pid, tier, seed, print):
     t0 = time.time()
     mod = load_prop(pid)
     cases = mod.gen_cases(tier, seed)
